@@ -2,6 +2,7 @@ CONSTANTS
   N = 2
   MaxTasks = 2
   G = 1
+  Stops = 1
   Dev = {}
   KeepHist = FALSE
 INIT GInit
